@@ -484,7 +484,15 @@ class InvokeDefinition:
             config,
         )
         self.id: str = invoke_id
-        self.src: Optional[str] = config.get("src")
+        src = config.get("src")
+        # 🛡️ `src` is the key into `MachineLogic.services`; an unhashable or
+        #    otherwise non-string value blew up in that lookup on entry.
+        if src is not None and not isinstance(src, str):
+            raise InvalidConfigError(
+                f"Invoke on state '{source.id}' has an invalid 'src' of type "
+                f"'{type(src).__name__}'. Expected a service name string."
+            )
+        self.src: Optional[str] = src
         self.input: Optional[Dict[str, Any]] = config.get("input")
         self.source: "StateNode" = source
         self.on_done: List[TransitionDefinition] = on_done
